@@ -18,7 +18,8 @@
  *   c04_faults readfault <file> <jfrom> <jto> <stride> <mode>   callbacks: the j-th read call and all later ones
  *                                                            return short (mode 0) / nothing (mode 1)
  *   c04_faults own <file> <garbagefile>                   stream-ownership scenarios
- *   c04_faults tempfault <file>                           mkstemp / fdopen failing inside make_temp_file
+ *   c04_faults tempfault <file> <which>                   inside make_temp_file: 1 mkstemp refused, 2 fdopen fails,
+ *                                                         3 libc mkstemp at the descriptor limit; +10: xmp_test_module
  *   c04_faults mutate <entry> <file> <off:val[,off:val...]>...     bytes replaced (corrupt archives), load + test
  *   c04_faults companion <module> <companion> <len>...             companion file missing (-1) / a directory (-2) / cut
  *   c04_faults rescan <mode|cflags|scan> <playing> <file> <kfrom> <kto> <stride>   every allocator call of a rescan fails
@@ -53,6 +54,7 @@
 #include <unistd.h>
 #include <fcntl.h>
 #include <sys/stat.h>
+#include <sys/resource.h>
 #include <execinfo.h>
 #include <sanitizer/lsan_interface.h>
 #include <sanitizer/common_interface_defs.h>
@@ -1930,9 +1932,23 @@ int __real_mkstemp(char *);
 FILE *__real_fdopen(int, const char *);
 int __wrap_mkstemp(char *t)
 {
-	if (tf_fail_mkstemp) {
+	if (tf_fail_mkstemp == 1) {
 		errno = EACCES;
 		return -1;
+	}
+	if (tf_fail_mkstemp == 2) {
+		/* no descriptor left: libc's own mkstemp fails (EMFILE) and does to the template whatever it does */
+		struct rlimit rl, zero;
+		int fd, e;
+		getrlimit(RLIMIT_NOFILE, &rl);
+		zero = rl;
+		zero.rlim_cur = 0;
+		setrlimit(RLIMIT_NOFILE, &zero);
+		fd = __real_mkstemp(t);
+		e = errno;
+		setrlimit(RLIMIT_NOFILE, &rl);
+		errno = e;
+		return fd;
 	}
 	return __real_mkstemp(t);
 }
@@ -1959,8 +1975,8 @@ static int cmd_tempfault(int argc, char **argv)
 	which = atoi(argv[3]);
 	src_init(&src, E_PATH, argv[2]);
 	printf("begin op=tempfault file=%s which=%d\n", argv[2], which);
-	tf_fail_mkstemp = which == 1;
-	tf_fail_fdopen = which == 2;
+	tf_fail_mkstemp = which % 10 == 1 ? 1 : which % 10 == 3 ? 2 : 0;	/* 2: the real mkstemp at the descriptor limit */
+	tf_fail_fdopen = which % 10 == 2;
 	run_case(which >= 10 ? OP_TEST : OP_LOAD, &src, -1, 1);
 	tf_fail_mkstemp = tf_fail_fdopen = 0;
 	free(src.data);
